@@ -1,0 +1,31 @@
+// Cadence - An extensible Statsd client for Rust!
+//
+// Licensed under the Apache License, Version 2.0 <LICENSE-APACHE or
+// http://www.apache.org/licenses/LICENSE-2.0> or the MIT license
+// <LICENSE-MIT or http://opensource.org/licenses/MIT>, at your
+// option. This file may not be copied, modified, or distributed
+// except according to those terms.
+
+//! Scheduling points for external verification harnesses.
+//!
+//! This module only exists when the crate is compiled with
+//! `--cfg cadence_verif`; a normal build contains none of it. A harness
+//! installs a function that is called with the name of each scheduling
+//! point a thread passes, which lets it hold a thread at that point and
+//! thereby force a particular interleaving.
+
+use std::sync::RwLock;
+
+static HOOK: RwLock<Option<fn(&'static str)>> = RwLock::new(None);
+
+/// Install (or clear) the function called at every scheduling point.
+pub fn set_hook(hook: Option<fn(&'static str)>) {
+    *HOOK.write().unwrap() = hook;
+}
+
+pub(crate) fn point(name: &'static str) {
+    let hook = *HOOK.read().unwrap();
+    if let Some(f) = hook {
+        f(name);
+    }
+}
